@@ -248,9 +248,9 @@ def rule_r3(F, rep):
 
 
 def run(F, rep, tier):
-    rule_r1(F, rep)
-    rule_r2(F, rep)
-    rule_r3(F, rep)
+    rep.attempt(rule_r1, F, rep)
+    rep.attempt(rule_r2, F, rep)
+    rep.attempt(rule_r3, F, rep)
     try:
         from . import units
         units.rule_byte_index(F, rep, "C01.R4")
@@ -263,16 +263,16 @@ def run(F, rep, tier):
         arity.rule_tables(F, rep, "C01.R5b")
     except ImportError:
         rep.note("C01.R5 (arity tables) not built yet")
-    rule_r6(F, rep)
+    rep.attempt(rule_r6, F, rep)
     from . import c19, c20, c06
-    c06.rule_r1(F, rep)      # a non-finite number reaching the renderers / comparisons panics (unwrap of partial_cmp, `{:e}` parsing)
-    c06.rule_r1b(F, rep)
-    c19.rule_r5(F, rep, "C19.R5")
-    c20.rule_r6(F, rep)
+    rep.attempt(c06.rule_r1, F, rep)      # a non-finite number reaching the renderers / comparisons panics (unwrap of partial_cmp, `{:e}` parsing)
+    rep.attempt(c06.rule_r1b, F, rep)
+    rep.attempt(c19.rule_r5, F, rep, "C19.R5")
+    rep.attempt(c20.rule_r6, F, rep)
     # the text is built in a second run without import callbacks: anything the deep pass leaves pending panics there
     from . import c12, visibility
-    c12.rule_r7(F, rep)
-    visibility.rule_partition(F, rep, "C07.R6")
+    rep.attempt(c12.rule_r7, F, rep)
+    rep.attempt(visibility.rule_partition, F, rep, "C07.R6")
     rep.assume("evaluator data-stack balance, index/arithmetic-overflow panics and unreachable!() reachability are "
                "not decided (no whole-evaluator stack-effect typing)")
     return EXPLANATION
